@@ -785,7 +785,10 @@ class Evaluator:
                 raise Raised(type(x).__name__, e)
         if isinstance(f, tuple) and f and f[0] == "pymethod":
             try:
-                return getattr(f[1], f[2])(*args, **kw)
+                r_ = getattr(f[1], f[2])(*args, **kw)
+                if isinstance(f[1], dict) and f[2] in ("keys", "values", "items"):
+                    r_ = list(r_)  # a snapshot of the view, in insertion order
+                return r_
             except (ValueError, TypeError, IndexError, KeyError, UnicodeError, OverflowError) as x:
                 raise Raised(type(x).__name__, e)
         if isinstance(f, tuple) and f and f[0] == "method":
